@@ -58,7 +58,7 @@ class Gen:
             )
         return specs
 
-    def program(self, depth, name, allow_flags=True, is_inner=False, parent_specs=None):
+    def program(self, depth, name, allow_flags=True, is_inner=False, parent_specs=None, bad_ok=True):
         rng, f = self.rng, self.f
         specs = self.fn_specs(rng.randint(2, 5), name + "_")
         if parent_specs and rng.random() < f.get("share_fns", 0.0):
@@ -77,6 +77,9 @@ class Gen:
             vars_[p] = dict(shape=None, maybe_none=False, plain=False, elem=False, param=True)
         vi = [0]
         site = [0]
+        # (plain Python evaluates an argument expression even when the call is then deactivated, a DAG does not: bad indexes are
+        # only written where no activation flag can skip the consumer)
+        bad_now = [bad_ok]
 
         def newvar():
             vi[0] += 1
@@ -100,6 +103,15 @@ class Gen:
                     forms = f.get("flag_forms", "all")
                     if forms == "whole":
                         return v
+                if sh and not for_flag and bad_now[0] and rng.random() < f.get("bad_index", 0.02):
+                    # a key / index that does not exist in that run: plain Python raises KeyError / IndexError at this statement,
+                    # so the DAG call must raise too (the consumer is never handed a made-up value)
+                    if sh[0] == "dict":
+                        return '%s["missing"]' % v
+                    if sh[0] in ("tuple", "list"):
+                        return "%s[%d]" % (v, sh[1] + 3)
+                    if sh[0] == "tdict":
+                        return '%s["r"]["nope"]' % v
                 if sh and sh[0] == "dict" and rng.random() < 0.7:
                     return rng.choice(['%s["a"]' % v, '%s["b"][1]' % v, '%s["b"]' % v])
                 if sh and sh[0] == "tdict" and rng.random() < 0.8:
@@ -150,7 +162,7 @@ class Gen:
                 iname = self.fresh(name + "_in")
                 flagged = allow_flags and rng.random() < f.get("nest_flag", 0.0)
                 ip = self.program(depth - 1, iname, allow_flags=(not flagged) and allow_flags and rng.random() < 0.5, is_inner=True,
-                                  parent_specs=specs)
+                                  parent_specs=specs, bad_ok=bad_ok and not flagged)
                 if flagged and not ip["flagfree"]:
                     flagged = False
                 if rng.random() < f.get("same_name_inner", 0.3):
@@ -207,8 +219,10 @@ class Gen:
             sp = specs[fname]
             if sp["unpack_to"]:
                 will_flag = False  # unpacking the None of a deactivated call is outside the fragment (DESIGN 6.9)
+            bad_now[0] = bad_ok and not will_flag
             args = [pick() for _ in range(rng.randint(0, 3))]
             kws = {"k%d" % j: pick() for j in range(rng.randint(0, 2))} if rng.random() < f.get("kwargs", 0.5) else {}
+            bad_now[0] = bad_ok
             st = dict(op="call", fn=fname, args=args, kwargs=kws, active=None, tag=None, site=site[0], t=[])
             site[0] += 1
             if will_flag:
